@@ -121,12 +121,38 @@ Proof.
 Qed.
 Print Assumptions C02_fallback.
 
+(** PARTIAL form of the property's last sentence ("the results agree, within sampling error, with the exact
+    moments under that multivariate normal distribution").
+    FULL statement, not provable with what is installed: if the offsets are independent standard normal
+    variables then the N draws are independent N(v, D C D) vectors and value / uncertainty converge (N -> oo)
+    to the exact mean / standard deviation of f under that law.
+    PROVED: the deterministic core -- whenever the offsets actually drawn have second moments n * identity
+    (what i.i.d. standard normal offsets have in expectation), the correlated offsets L . Z have second moments
+    n * C: the draws carry exactly the correlations set between the measurements. *)
+Theorem C02_moments_partial : forall k C L cols n,
+  chol k C = CholOk L ->
+  (forall a b, (a < k)%nat -> (b < k)%nat -> mom cols a b == if (a =? b)%nat then n else 0) ->
+  forall i j, (j <= i)%nat -> (i < k)%nat ->
+  mom (map (matvec L) cols) i j == n * mget C i j.
+Proof.
+  intros k C L cols n Hc Hid i j Hji Hi.
+  rewrite (identity_moments_push L cols n k i j (chol_rows_length k C L i Hc) (chol_rows_length k C L j Hc) Hid).
+  rewrite (chol_ok k C L Hc i j Hji Hi). reflexivity.
+Qed.
+Print Assumptions C02_moments_partial.
+
 (** non-vacuity: rho = 3/5 (k = 2), a 3 x 3 matrix with a rational factor, a jointly non-positive-definite
     triple of valid correlations, and a first read of x*y with correlated sources and a division-free formula *)
 Definition ex_C3 : matrix := [[1; 3 # 5; 2 # 3]; [3 # 5; 1; 14 # 15]; [2 # 3; 14 # 15; 1]].
 Definition ex_bad : matrix := [[1; 9 # 10; 9 # 10]; [9 # 10; 1; -9 # 10]; [9 # 10; -9 # 10; 1]].
 Definition ex_normal2 (i n : nat) : list Q :=
   map (fun j => inject_Z (Z.of_nat ((j * 3 + i * 2) mod 7)) / 2 - (3 # 2)) (seq 0 n).
+Definition ex_signs : list (list Q) :=
+  map (fun n => map (fun j => if Nat.testbit n j then 1 else -1) [0; 1; 2]%nat) (seq 0 8).
+Example C02_nonvacuous_moments :
+  forallb (fun a => forallb (fun b => Qeq_bool (mom ex_signs a b) (if (a =? b)%nat then 8 else 0)) [0; 1; 2]%nat)
+          [0; 1; 2]%nat = true.
+Proof. vm_compute. reflexivity. Qed.
 Example C02_nonvacuous :
   chol 2 [[1; 3 # 5]; [3 # 5; 1]] = CholOk [[1; 0]; [3 # 5; 4 # 5]] /\
   chol 3 ex_C3 = CholOk [[1; 0; 0]; [3 # 5; 4 # 5; 0]; [2 # 3; 600 # 900; 1 # 3]] /\
